@@ -189,7 +189,7 @@ def _fields(r):
 def spec_check(case, ir, mr):
     """the property restated on the observable result of one case (search / triage only)"""
     if ir is None:
-        return 'no result from the implementation'
+        return None          # the harness did not get that far (reported as a harness error, not as an input)
     if 'CRASH' in ir:
         return 'memory error / abort in the implementation: ' + ir
     w = case.split(' ')
@@ -235,11 +235,17 @@ def spec_check(case, ir, mr):
 
 
 def classify(case, ir, mr):
+    """label = which part of the property the result violates (falls back to the first differing field)"""
     if case.startswith('p'):
         return 'stringTo'
-    if ir is None or 'CRASH' in ir:
+    if ir is not None and 'CRASH' in ir:
         return 'memory'
-    a, b = _fields(ir), _fields(mr or '')
+    reason = spec_check(case, ir, mr) or ''
+    for key, lab in (('int2string(', 'exact'), ('grouped_int2string(', 'grouped'), ('gbuf variant', 'grouped-buffer'),
+                     ('buf variant', 'buffer'), ('stringTo(', 'roundtrip')):
+        if reason.startswith(key):
+            return lab
+    a, b = _fields(ir or ''), _fields(mr or '')
     for k, lab in (('str', 'exact'), ('buf', 'buffer'), ('gstr', 'grouped'), ('gbuf', 'grouped-buffer'),
                    ('rt', 'roundtrip')):
         if a.get(k) != b.get(k):
